@@ -1238,6 +1238,15 @@ class Scripts:
                     self.emit('env lorarx %d 0 %s' % (r.randint(0, 255), data))
                     self.emit('irq')
                     self.emit('#= lorarx 0 %s' % data)
+                    # a reconfiguration whose first transfer fails reached neither the chip nor
+                    # (C11: no stale state) the packet paths: the next packet is delivered whole
+                    k = r.randint(1, 40)
+                    c = r.choice([1, 0x101, 0x107])
+                    self.emit('lora_set_implicit_header %d %d %d !0=%d' % (k, r.randint(1, 4), r.randint(0, 1), c))
+                    data = self.api.bytes_hex(r.choice([n for n in range(1, 61) if n != k]))
+                    self.emit('env lorarx %d 0 %s' % (r.randint(0, 255), data))
+                    self.emit('irq')
+                    self.emit('#= lorarx 0 %s' % data)
             self.emit('dump')
 
     def two_byte(self):
